@@ -31,6 +31,7 @@ type c11Gen struct {
 	native []string // native denominations minted in this history
 	force     *common.Address // when set, the next steps address this contract's pair
 	forceBase string          // … and ICS-20 packets carry this base denomination
+	fresh     int             // counter for fresh denominations
 	pgAmt     *big.Int        // while a programmable token is armed: the amount that makes `after == before + amount` coincide
 }
 
@@ -308,6 +309,9 @@ func (g *c11Gen) stepOp() {
 		c = *g.force
 	} else if rng.Intn(100) < 6 {
 		g.restartScenario()
+		return
+	} else if rng.Intn(100) < 3 {
+		g.disabledPairScenario()
 		return
 	} else if rng.Intn(100) < 3 {
 		g.moduleOffByKeyScenario()
@@ -718,4 +722,128 @@ func (g *c11Gen) moduleOffByKeyScenario() {
 		g.doDump(fmt.Sprintf("gov %s %d", hxs("EnableEVMHook"), rng.Intn(2)))
 	}
 	g.doDump(fmt.Sprintf("gov %s 1", hxs("EnableAggregate")))
+}
+
+// A pair governance switched OFF, then every other governance operation that rewrites / rebuilds / re-reads the pair,
+// in random order — AddCoin of a fresh denomination, UpdateTokenPairERC20 to a fresh contract, a second toggle pair
+// (on, off), RegisterCoin / RegisterERC20 attempts for what is registered already, parameter changes, restart — each
+// followed by conversion attempts in both directions (old and newly added denominations) and ICS-20 packets.
+func (g *c11Gen) disabledPairScenario() {
+	rng := g.r.Rng
+	w := g.w
+	var regs []common.Address
+	for _, c := range w.contracts {
+		if w.pairOf(w.ctx, c).found {
+			regs = append(regs, c)
+		}
+	}
+	if len(regs) == 0 {
+		return
+	}
+	cur := regs[rng.Intn(len(regs))]
+	if rng.Intn(2) == 0 { // prefer the pairs UpdateTokenPairERC20 can re-point (name == sanitized name)
+		for _, c := range regs {
+			if k := w.kinds[c]; (k == "dd" || k == "fr" || k == "pg") && w.pairOf(w.ctx, c).owner == aggtypes.OWNER_EXTERNAL {
+				cur = c
+			}
+		}
+	}
+	if rng.Intn(3) == 0 { // … or a pair that lists an IBC voucher (ICS-20 hook attempts)
+		for _, c := range regs {
+			for _, d := range w.pairOf(w.ctx, c).denoms {
+				if strings.HasPrefix(d, "ibc/") {
+					cur = c
+				}
+			}
+		}
+	}
+	if !w.app.AggregateKeeper.GetParams(w.ctx).EnableAggregate {
+		g.setModule(true)
+	}
+	if w.pairOf(w.ctx, cur).enabled {
+		g.doDump("toggle " + hxs("0x"+c11Hex(cur)))
+	}
+	attempts := func() {
+		p := w.pairOf(w.ctx, cur)
+		if !p.found {
+			return
+		}
+		g.force = &cur
+		g.forceBase = ""
+		for _, b := range []string{"uatom", "uosmo", "ujuno"} {
+			for _, d := range p.denoms {
+				if d == c11Voucher(b) {
+					g.forceBase = b
+				}
+			}
+		}
+		for k := 2; k > 0; k-- {
+			g.stepOp()
+		}
+		if g.forceBase != "" {
+			g.icsOp()
+		}
+		g.force, g.forceBase = nil, ""
+	}
+	attempts()
+	ops := []string{"addcoin", "update", "retoggle", "tryreg", "param", "restart"}
+	rng.Shuffle(len(ops), func(i, j int) { ops[i], ops[j] = ops[j], ops[i] })
+	for _, op := range ops[:2+rng.Intn(len(ops)-1)] {
+		kind := w.kinds[cur]
+		if !w.pairOf(w.ctx, cur).found {
+			break
+		}
+		switch op {
+		case "addcoin":
+			g.fresh++
+			d := fmt.Sprintf("nd%dcoin", g.fresh)
+			for _, a := range g.accts[:2] {
+				g.do(fmt.Sprintf("mintcoin %s %s %d", c11Hex(a), hxs(d), 50+rng.Intn(500)))
+			}
+			g.doDump(fmt.Sprintf("addcoin %s %s", hxs(d), c11Hex(cur)))
+		case "update":
+			deployer := g.accts[rng.Intn(2)]
+			seq, _ := w.app.AccountKeeper.GetSequence(w.ctx, deployer.Bytes())
+			nw := crypto.CreateAddress(deployer, seq)
+			k := kind
+			if k == "dbm" || k == "mal" {
+				k = "mb"
+			}
+			g.do(fmt.Sprintf("deploy %s %s %s 0", k, c11Hex(nw), c11Hex(deployer)))
+			metaOk := 0
+			if (kind == "dd" || kind == "fr" || kind == "pg") && w.pairOf(w.ctx, cur).owner == aggtypes.OWNER_EXTERNAL {
+				metaOk = 1
+			}
+			if g.doDump(fmt.Sprintf("update %s %s %d", c11Hex(cur), c11Hex(nw), metaOk)) == "ok" {
+				cur = nw
+			}
+		case "retoggle":
+			g.doDump("toggle " + hxs("0x"+c11Hex(cur)))
+			if rng.Intn(3) == 0 {
+				attempts() // enabled in between: conversions may go through
+			}
+			if p := w.pairOf(w.ctx, cur); p.found {
+				g.doDump("toggle " + hxs(p.denoms[0]))
+			}
+		case "tryreg":
+			if !w.pairOf(w.ctx, cur).found {
+				continue
+			}
+			g.doDump("tryregcoin " + hxs(g.pick(w.pairOf(w.ctx, cur).denoms)))
+			g.doDump("tryregerc20 " + c11Hex(cur))
+		case "param":
+			if rng.Intn(2) == 0 {
+				g.setModule(false)
+				g.setModule(true)
+			} else {
+				g.doDump(fmt.Sprintf("gov %s %d", hxs("EnableEVMHook"), rng.Intn(2)))
+			}
+		case "restart":
+			g.doDump("restart")
+		}
+		attempts()
+	}
+	if rng.Intn(10) < 6 && w.pairOf(w.ctx, cur).found && !w.pairOf(w.ctx, cur).enabled {
+		g.doDump("toggle " + hxs("0x"+c11Hex(cur)))
+	}
 }
